@@ -82,7 +82,7 @@ PROPS = {
                      "ECDHE shared secret, received plaintext), raw and as hex with separators removed; non-trivial = the run executed library code "
                      "that handles secrets (every run does); distinct = distinct interleaving / fault / operation-sequence ids"),
     "C06": dict(level="exploration", design="4.5", memclass="only", cell_keys=["proto", "victim", "rec"],
-                parts=[("byz", "asan", 8, 32, []), ("mitm-hs", "asan", 3, 24, []), ("mitm-data", "asan", 2, 24, []), ("auth", "asan", 1, 12, []), ("http", "asan", 1, 200, []), ("byz", "msan", 2, 16, []), ("honest", "msan", 1, 6, []), ("mitm-data", "msan", 1, 12, []),
+                parts=[("byz", "asan", 8, 32, []), ("mitm-hs", "asan", 3, 24, []), ("mitm-data", "asan", 2, 24, []), ("auth", "asan", 1, 12, []), ("http", "asan", 1, 200, []), ("byz", "msan", 2, 16, []), ("honest", "msan", 1, 6, []), ("mitm-data", "msan", 1, 12, []), ("auth", "msan", 1, 12, []),
                        ("mitm-hs", "msan", 1, 24, [], "thorough"), ("entropy", "msan", 1, 20, [], "thorough")],
                 quick_s=55, thorough_s=1200, quick_max=200000, thorough_max=4000000,
                 rule="scope: every byte stream a TLS/TLCP/TLS 1.3 client or server receives from its peer. One run = a real victim endpoint "
